@@ -2,7 +2,7 @@
     Statements only; proofs in Proofs/Store.v and Proofs/Misc.v.  [ent_cells w e] is the
     triple (node, relation target, component cells) the storage holds for [e]. *)
 From Arche Require Import Model.Base Model.Pool Model.World Model.Ops
-  Proofs.PoolInv Proofs.Tables Proofs.Store Proofs.Misc.
+  Proofs.PoolInv Proofs.Tables Proofs.Store Proofs.Misc Proofs.WorldInv Proofs.RelGraph Proofs.RelWorld Proofs.RelRefine.
 
 (** Removing ANY alive entity - a relation target or not, targeting itself or not, with
     its target clean-up and the retirement of emptied tables - succeeds from every state
@@ -37,4 +37,48 @@ Theorem C06_reuse_starts_empty : forall zr t i,
   table_ok zr t -> tlen t = 0 -> i < length (t_rows t) -> t_rows t !! i = Some zr /\ t_ents t = [].
 Proof. exact empty_table_all_zero. Qed.
 
+
+(** With the graph invariant (target map, free list, re-use): removing an entity - target
+    or not - keeps the whole invariant, so that everything proved for exchanges, creations
+    and Relations.Set keeps holding afterwards (retired tables are re-used LIFO by
+    [create_table], see [RelGraph.create_table_rel_reuse_rok]); every other entity keeps
+    mask, relation, (possibly dead) target and values. *)
+Theorem C06_remove_entity_graph : forall w live issued e,
+  world_okr2 w live issued -> e ∈ live -> (egen e < gen_max)%N -> is_locked w = false ->
+  let r := op_remove_entity w e in
+  snd (fst r) = Ok VUnit /\ world_okr2 (fst (fst r)) (filter (fun x => x <> e) live) issued /\
+  w_reg (fst (fst r)) = w_reg w /\
+  (forall e', e' ∈ live -> e' <> e ->
+     ent_mask (fst (fst r)) e' = ent_mask w e' /\ ent_target (fst (fst r)) e' = ent_target w e' /\
+     ent_rel (fst (fst r)) e' = ent_rel w e' /\ forall id, comp_val (fst (fst r)) e' id = comp_val w e' id) /\
+  pool_alive (w_pool (fst (fst r))) e = false.
+Proof. exact remove_entity_rok. Qed.
+
+(** Retirement and cleanup keep the graph invariant. *)
+Theorem C06_cleanup_keeps_graph : forall w tid target,
+  rgraph_ok w -> rgraph_ok (cleanup_table w tid) /\ rgraph_ok (cleanup_tables_for w target).
+Proof. intros w tid target G. split; [by apply cleanup_table_rok|by apply cleanup_tables_for_rok]. Qed.
+
+(** Re-use of a retired table: the table handed out is empty, active, has the new target,
+    and the invariant holds again. *)
+Theorem C06_reuse : forall w nid nd r target fs tid,
+  rgraph_ok w -> w_nodes w !! nid = Some nd -> n_rel nd = Some r -> last (n_free nd) = Some tid ->
+  assoc_get target (n_tmap nd) = None ->
+  let '(w1, tid') := create_table w nid target fs in
+  tid' = tid /\ ext_r w w1 /\ rgraph_ok w1 /\
+  exists t nd', w_tables w1 !! tid = Some t /\ t_node t = nid /\ t_ents t = [] /\ t_active t = true /\
+     t_target t = target /\
+     w_nodes w1 !! nid = Some nd' /\ n_mask nd' = n_mask nd /\ n_rel nd' = n_rel nd /\ n_ids nd' = n_ids nd.
+Proof. exact create_table_rel_reuse_rok. Qed.
+
+(** After the target of an entity has been removed, the entity still reports the dead
+    target (a concrete history; the general statement is [C06_remove_entity_graph]). *)
+Example C06_dangling_target :
+  snd (arun (world_init 4 4 64) a_init demo_ops) =
+  mkAS [(demo_e2, mkA 2 demo_e1 [])] [demo_e2] [demo_e2; demo_e1]
+       [mkCI 10 false false; mkCI 11 true false; mkCI 12 false true].
+Proof. exact demo_result. Qed.
+
 Print Assumptions C06_remove_entity.
+Print Assumptions C06_remove_entity_graph.
+Print Assumptions C06_reuse.
